@@ -22,6 +22,7 @@ package store
 //@ pure published(j *JsonDataStore) bool = $fsState[dataPath(j)] == 0 || $fsState[dataPath(j)] == 2
 
 //@ func (*JsonDataStore).Save
+//@   safety
 //@   requires [nonnil] j != nil && data != nil
 //@   requires [published] published(j)
 //@   step     [C09.published] published(j)
@@ -30,6 +31,7 @@ package store
 //@   ensures  [C09.keptOnError] res != nil ==> $fsState[dataPath(j)] == old($fsState[dataPath(j)]) && $fsData[dataPath(j)] == old($fsData[dataPath(j)])
 
 //@ func (*JsonDataStore).Load
+//@   safety
 //@   requires [nonnil] j != nil
 //@   requires [published] published(j)
 //@   ensures  [C09.absent] old($fsState[dataPath(j)]) == 0 ==> res1 == nil && res0 != nil && len(res0.Jobs) == 0
@@ -39,4 +41,4 @@ package store
 // The codec configuration must not lose number precision (C10): ConfigFastest marshals floats with 6 digits.
 //@ globalinit json: jsoniter.ConfigDefault, jsoniter.ConfigCompatibleWithStandardLibrary
 
-//@ property C09: store.*/ensures[C09.*] store.*/step[C09.*] store.*/extern-pre[*]
+//@ property C09: store.*/ensures[C09.*] store.*/step[C09.*] store.*/extern-pre[*] store.*/safety
